@@ -13,7 +13,7 @@ CACHE = os.path.join(BUILD, "cache")
 ROOT_OF = {"lexcfg": "LexerMC", "respell": "LexerRespellMC", "literals": "LiteralsMC", "driver": "DriverMC", "normsim": "ViolMC",
            "normexh": "ViolMC", "violexh": "ViolMC", "limits": "LimitsMC", "header42": "Header42MC", "guard": "GuardMC",
            "locality": "LocalityMC", "edits": "EditsMC", "garbage": "GarbageMC", "report": "Report",
-           "respellprog": "RespellProgMC"}
+           "respellprog": "RespellProgMC", "enginemc": "EngineMC", "tokedits": "TokEdits"}
 
 
 def closure(root):
